@@ -55,7 +55,7 @@ fn main() {
                 }
             };
             fs::write(res, serde_json::to_vec(&sum).unwrap()).unwrap();
-            let _ = fs::remove_dir_all(simkit::fsutil::scratch_base());
+            simkit::fsutil::cleanup_process_dirs();
             exit(0);
         }
         "replay" => {
@@ -76,6 +76,7 @@ fn main() {
             unsafe {
                 libc::dup2(saved, 1);
             }
+            simkit::fsutil::cleanup_process_dirs();
             if let Some(e) = &out.harness_error {
                 println!("HARNESS-ERROR: {}", e);
                 exit(2);
@@ -112,6 +113,7 @@ fn main() {
             };
             let m = driver::minimise(&rp, 300);
             fs::write(&args[3], serde_json::to_vec_pretty(&m).unwrap()).unwrap();
+            simkit::fsutil::cleanup_process_dirs();
             exit(0);
         }
         "determinism" => {
@@ -125,7 +127,7 @@ fn main() {
             let inp: driver::RunOneInput = serde_json::from_slice(&fs::read(&args[2]).unwrap()).unwrap();
             let out = worlds::execute(&inp.scenario, &worlds::ExecOpts { sched: inp.sched, trace: inp.trace });
             fs::write(&args[3], serde_json::to_vec(&driver::to_lite(&out)).unwrap()).unwrap();
-            let _ = fs::remove_dir_all(simkit::fsutil::scratch_base());
+            simkit::fsutil::cleanup_process_dirs();
             exit(0);
         }
         "gen" => {
